@@ -71,6 +71,29 @@ def cclass(c):
     return ('astral-' if o > 0xffff else '') + unicodedata.category(c)
 
 
+WHITE = set('\u0085\u00a0\u1680\u2028\u2029\u202f\u205f\u3000') | set(chr(x) for x in range(0x2000, 0x200b))
+
+
+def sclass(c):
+    """The class of a character as it goes into a signature (coarser than cclass: what matters to a printer/reader)."""
+    if c in WHITE:
+        return 'unicode-white-space'
+    if c in '(){}[]':
+        return 'bracket'
+    k = cclass(c)
+    if k == 'ascii-letter':
+        return 'hex-digit' if c in 'abcdefABCDEF' else 'letter'
+    if k == 'ascii-digit':
+        return 'hex-digit'
+    if k in ('c0-control', 'tab', 'lf', 'cr', 'ff', 'del', 'c1-control', 'nul'):
+        return 'control'
+    if k.startswith('astral-'):
+        k = k[7:]
+    if len(k) == 2 and k[0].isupper():
+        return {'Co': 'private-use', 'Cn': 'unassigned', 'Cf': 'format-char', 'Zs': 'space-separator'}.get(k, 'non-ascii-printable')
+    return k
+
+
 def rand_char(rng, where):
     """where: 'string' | 'ident' | 'comment'"""
     k = rng.random()
@@ -153,6 +176,15 @@ def write(chars, modes):
     return ''.join(enc(c, m) for c, m in zip(chars, modes))
 
 
+def settle(chars, modes, ident):
+    """`\\00007e` also swallows one following white space: use the short form (which brings its own) at the end of an
+    identifier and in front of a literal white space."""
+    for i, m in enumerate(modes):
+        if m == 'hex6' and ((ident and i == len(chars) - 1) or (i + 1 < len(chars) and modes[i + 1] == 'lit' and chars[i + 1] in ' \t')):
+            modes[i] = 'hex'
+    return modes
+
+
 RESERVED = {'not', 'and', 'or', 'null', 'true', 'false', 'from', 'through', 'to', 'in', 'if', 'else', 'url', 'calc', 'min', 'max', 'clamp',
             'var', 'env', 'element', 'expression', 'progid', 'important', 'default', 'global'}
 WORDS = ['solid', 'auto', 'none', 'inherit', 'block', 'serif', 'bold', 'x', 'ab', 'foo-bar', 'red', 'Blue', 'ease-in', 'a1', '-webkit-box',
@@ -164,38 +196,46 @@ class Gen:
         self.rng = rng
         self.atoms = []      # {'kind', 'alone', 'chars'?, 'modes'?, 'carrier'?}
         self.interesting = False
+        self.outer = []             # at-rules around the statement being generated
+        self.no_hyphen = False      # set for the second and later items of a space list: `a -b` is where Sass sees a minus
 
     # ---------------- atoms with characters
     def note_chars(self, chars):
         if any(not (c.isascii() and (c.isalnum() or c == ' ')) for c in chars):
             self.interesting = True
 
-    def string(self, carrier, kind='string'):
+    def string(self, carrier, kind='quoted-string'):
         """carrier: minimal stylesheet with %s where the quoted string goes"""
         r = self.rng
         q = r.choice('"\'')
         n = r.choice([0, 1, 1, 2, 3, 4, 6, 9])
         chars = [rand_char(r, 'string') for _ in range(n)]
-        modes = string_modes(r, chars, q)
+        modes = settle(chars, string_modes(r, chars, q), False)
         src = q + write(chars, modes) + q
         self.note_chars(chars)
         self.atoms.append({'kind': kind, 'q': q, 'chars': chars, 'modes': modes, 'carrier': carrier, 'alone': carrier % src})
         return src
 
-    def ident(self, carrier, kind='ident', plain=0.5):
+    def ident(self, carrier, kind='value-identifier', plain=0.5):
         r = self.rng
         if r.random() < plain:
             w = r.choice(WORDS)
+            while self.no_hyphen and w.startswith('-'):
+                w = r.choice(WORDS)
             return w
         while True:
             n = r.choice([1, 1, 2, 3, 4, 6])
             chars = [rand_char(r, 'ident') for _ in range(n)]
             if r.random() < 0.5:
                 chars.insert(0, r.choice('abcxyz_'))
-            if r.random() < 0.15:
+            if r.random() < 0.15 and not self.no_hyphen:
+                if chars[0].isdigit():
+                    chars[0] = 'n'      # `-` + digit is a number, however the digit is written
                 chars.insert(0, '-')
                 if r.random() < 0.2:
                     chars.insert(0, '-')
+            if self.no_hyphen and chars[0] == '-':
+                chars.insert(0, 'h')
             if chars == ['-'] or ''.join(chars).lower() in RESERVED or (chars[0] == '-' and len(chars) == 1):
                 continue
             break
@@ -203,9 +243,14 @@ class Gen:
         if chars[0] == '-' and modes[0] == 'lit' and len(chars) == 2 and chars[1] == '-' and modes[1] == 'lit':
             chars.append('a')
             modes.append('lit')
+        modes = settle(chars, modes, True)
         src = write(chars, modes)
         self.note_chars(chars)
         self.atoms.append({'kind': kind, 'chars': chars, 'modes': modes, 'carrier': carrier, 'alone': carrier % src})
+        if kind == 'value-identifier':
+            # the same word followed by another value: shows an escape that swallows or loses its separator
+            c2 = carrier.replace('%s', '%s z9', 1)
+            self.atoms.append({'kind': 'value-identifier-before-another-value', 'chars': chars, 'modes': modes, 'carrier': c2, 'alone': c2 % src})
         return src
 
     # ---------------- values
@@ -223,7 +268,7 @@ class Gen:
                           '0.99999999999', '1e3', '1.5e-3', '2E2', '1e-12', '1e21', '0.5', '100', '007'])
         else:
             v = str(r.randint(0, 10 ** r.randint(1, 15)))
-        if r.random() < 0.2:
+        if r.random() < 0.2 and not self.no_hyphen:
             v = '-' + v
         u = r.choice(['', '', 'px', 'em', 'rem', '%', '%', 'vh', 'vw', 'deg', 'rad', 'turn', 's', 'ms', 'Hz', 'dpi', 'dppx', 'fr', 'ch', 'ex',
                       'cm', 'mm', 'in', 'pt', 'pc', 'Q', 'x', 'foo', 'PX', 'vmin'])
@@ -243,16 +288,22 @@ class Gen:
         if k < 0.35:
             return 'url(%s)' % self.string(carrier % 'url(%s)', 'url-string')
         if k < 0.85:
-            u = r.choice(['x.png', '/a/b.png?x=1&y=2#frag', 'http://h.example/a.png', 'data:image/png;base64,iVBORw0KGgo=', 'a%20b.png',
-                          '../up/\u00e9.svg', 'img/\u65e5\u672c.png', 'a\\ b.png', 'a\\(b\\).png', '#frag', 'x.png?a=1,b=2', "a\\'b.png", '~/x', 'a+b',
-                          'a*b.png', 'a\\\\b.png', 'A.PNG', '//h.example/x'])
+            feat, u = r.choice(self.URLS)
             src = 'url(%s)' % u
         else:
-            src = 'url( %s )' % r.choice(['x.png', '"y.png"', 'z/\u00e9.png'])
+            feat, u = r.choice([('spaces-inside', ' x.png '), ('spaces-around-quoted', ' "y.png" '), ('spaces-inside-non-ascii', ' z/\u00e9.png ')])
+            src = 'url(%s)' % u
         if not src.isascii() or '\\' in src:
             self.interesting = True
-        self.atoms.append({'kind': 'url', 'alone': carrier % src})
+        self.atoms.append({'kind': 'url|unquoted:' + feat, 'alone': carrier % src})
         return src
+
+    URLS = [('plain', 'x.png'), ('query-and-fragment', '/a/b.png?x=1;y=2#frag'), ('scheme', 'http://h.example/a.png'),
+            ('data', 'data:image/png;base64,iVBORw0KGgo='), ('percent', 'a%20b.png'), ('non-ascii', '../up/\u00e9.svg'), ('non-ascii', 'img/\u65e5\u672c.png'),
+            ('escaped-space', 'a\\ b.png'), ('escaped-parens', 'a\\(b\\).png'), ('fragment-only', '#frag'), ('comma', 'x.png?a=1,b=2'),
+            ('escaped-quote', "a\\'b.png"), ('tilde', '~/x'), ('plus', 'a+b'), ('star', 'a*b.png'), ('escaped-backslash', 'a\\\\b.png'),
+            ('uppercase', 'A.PNG'), ('scheme-relative', '//h.example/x'), ('equals', 'x?a=b'), ('at-sign', 'u@h/x'), ('exclamation', 'x!y'),
+            ('brackets', 'x[1]')]
 
     CALLS = ['translate', 'translateX', 'rotate', 'scale3d', 'skew', 'matrix', 'perspective', 'attr', 'counter', 'counters', 'cubic-bezier',
              'steps', 'local', 'format', 'linear-gradient', 'radial-gradient', 'repeat', 'minmax', 'fit-content', 'drop-shadow', 'image-set',
@@ -261,13 +312,25 @@ class Gen:
     def call(self, carrier, depth):
         r = self.rng
         name = r.choice(self.CALLS)
+        while self.no_hyphen and name.startswith('-'):
+            name = r.choice(self.CALLS)
         args = []
+        saved = self.no_hyphen
         for _ in range(r.choice([1, 1, 2, 3, 4])):
-            args.append(' '.join(self.single(None, depth + 1) for _ in range(r.choice([1, 1, 1, 2, 3]))))
+            args.append(self.space_list(None, depth + 1, r.choice([1, 1, 1, 2, 3])))
+        self.no_hyphen = saved
         src = '%s(%s)' % (name, r.choice([', ', ', ', ',']).join(args))
         if carrier:
             self.atoms.append({'kind': 'call', 'alone': carrier % src})
         return src
+
+    def space_list(self, carrier, depth, n):
+        items = []
+        for i in range(n):
+            self.no_hyphen = i > 0
+            items.append(self.single(carrier, depth))
+        self.no_hyphen = False
+        return ' '.join(items)
 
     def single(self, carrier, depth=0):
         """one value; carrier None inside a call (the call is the atom then, its strings/identifiers are atoms of their own)"""
@@ -281,9 +344,9 @@ class Gen:
             src = self.color()
             kind = 'color'
         elif k < 0.6:
-            return self.string(c2, 'string' if carrier else 'string-in-call')
+            return self.string(c2, 'quoted-string')
         elif k < 0.8:
-            return self.ident(c2, 'ident' if carrier else 'ident-in-call')
+            return self.ident(c2, 'value-identifier')
         elif k < 0.88:
             return self.url(c2)
         elif depth < 2:
@@ -300,7 +363,7 @@ class Gen:
         car = 'a { p: %s }'
         groups = []
         for _ in range(r.choice([1, 1, 1, 2, 3])):
-            groups.append(' '.join(self.single(car) for _ in range(r.choice([1, 1, 2, 3, 4]))))
+            groups.append(self.space_list(car, 0, r.choice([1, 1, 2, 3, 4])))
         src = ', '.join(groups)
         if len(groups) > 1 or ' ' in src:
             self.atoms.append({'kind': 'value-list', 'alone': car % src})
@@ -340,7 +403,7 @@ class Gen:
             else:
                 op = r.choice(['=', '=', '~=', '|=', '^=', '$=', '*='])
                 if r.random() < 0.6:
-                    v = self.string('[%s%s%%s] { p: v }' % (name, op), 'attribute-string')
+                    v = self.string('[%s%s%%s] { p: v }' % (name, op), 'quoted-string')
                     mod = r.choice(['', '', '', ' i', ' s'])
                 else:
                     v = self.ident('[%s%s%%s] { p: v }' % (name, op), 'attribute-ident')
@@ -398,7 +461,10 @@ class Gen:
             text += '\n   second line\n * third '
         self.note_chars(text.replace('\n', ''))
         src = '/*%s%s*/' % (r.choice(['', ' ', '! ']), text)
-        self.atoms.append({'kind': 'comment', 'alone': src})
+        lines = 'multi-line' if '\n' in text or '\r' in text or '\f' in text else 'one-line'
+        self.atoms.append({'kind': 'comment|%s|at-top-level' % lines, 'alone': src})
+        self.atoms.append({'kind': 'comment|%s|in-rule' % lines, 'alone': 'a {\n  %s\n  p: v;\n}' % src})
+        self.atoms.append({'kind': 'comment|%s|in-rule-in-at-rule' % lines, 'alone': '@media print {\n  a {\n    %s\n    p: v;\n  }\n}' % src})
         return src
 
     def rule(self, ind):
@@ -411,13 +477,19 @@ class Gen:
     MEDIA = ['print', 'screen', 'screen and (min-width: 100px)', '(max-width: 50em)', 'not all and (monochrome)',
              'only screen and (orientation: landscape)', 'screen, print', '(min-width: 10px) and (max-width: 20.5px)', '(min-resolution: 2dppx)',
              'screen and (-webkit-min-device-pixel-ratio: 2)', 'PRINT', '(min-aspect-ratio: 16/9)', 'all and (color)']
-    SUPPORTS = ['(display: grid)', 'not (display: grid)', '(display: grid) and (gap: 1px)', '(a: b) or (c: d)', '(transform: rotate(45deg))',
-                '(font-family: "x y")', 'not ((a: b) and (c: d))']
+    SUPPORTS = [('declaration', '(display: grid)'), ('not', 'not (display: grid)'), ('and', '(display: grid) and (gap: 1px)'),
+                ('or', '(a: b) or (c: d)'), ('call-in-value', '(transform: rotate(45deg))'), ('string-in-value', '(font-family: "x y")'),
+                ('nested-parentheses', 'not ((a: b) and (c: d))'), ('nested-parentheses', '((a: b) or (c: d)) and (e: f)')]
 
     def statement(self, depth):
         r = self.rng
         ind = '  ' * depth
         k = r.random()
+        if self.outer and 0.65 <= k < 0.85 and depth < 2:
+            inner = 'media' if k < 0.77 else 'supports'
+            kind = 'nested-at-rule|%s-in-%s' % (inner, self.outer[-1])
+            wrap = {'media': '@media print { %s }', 'supports': '@supports (a: b) { %s }'}
+            self.atoms.append({'kind': kind, 'alone': wrap[self.outer[-1]] % (wrap[inner] % 'a { p: v }')})
         if k < 0.55 or depth >= 2:
             return self.rule(ind)
         if k < 0.65:
@@ -425,19 +497,25 @@ class Gen:
         if k < 0.77:
             q = r.choice(self.MEDIA)
             self.atoms.append({'kind': 'media-query', 'alone': '@media %s { a { p: v } }' % q})
-            return '%s@media %s {\n%s\n%s}' % (ind, q, '\n'.join(self.statement(depth + 1) for _ in range(r.choice([1, 1, 2]))), ind)
+            self.outer.append('media')
+            body = '\n'.join(self.statement(depth + 1) for _ in range(r.choice([1, 1, 2])))
+            self.outer.pop()
+            return '%s@media %s {\n%s\n%s}' % (ind, q, body, ind)
         if k < 0.85:
-            q = r.choice(self.SUPPORTS)
-            self.atoms.append({'kind': 'supports-condition', 'alone': '@supports %s { a { p: v } }' % q})
-            return '%s@supports %s {\n%s\n%s}' % (ind, q, '\n'.join(self.statement(depth + 1) for _ in range(r.choice([1, 1, 2]))), ind)
+            feat, q = r.choice(self.SUPPORTS)
+            self.atoms.append({'kind': 'supports-condition|form=' + feat, 'alone': '@supports %s { a { p: v } }' % q})
+            self.outer.append('supports')
+            body = '\n'.join(self.statement(depth + 1) for _ in range(r.choice([1, 1, 2])))
+            self.outer.pop()
+            return '%s@supports %s {\n%s\n%s}' % (ind, q, body, ind)
         if depth > 0:
             return self.rule(ind)
         if k < 0.92:
-            body = ['font-family: %s;' % (self.string('@font-face { font-family: %s }', 'string') if r.random() < 0.6
-                                          else self.ident('@font-face { font-family: %s }', 'ident'))]
+            body = ['font-family: %s;' % (self.string('@font-face { font-family: %s }', 'quoted-string') if r.random() < 0.6
+                                          else self.ident('@font-face { font-family: %s }', 'value-identifier'))]
             if r.random() < 0.7:
-                body.append('src: %s format(%s), local(%s);' % (self.url('@font-face { src: %s }'), self.string('@font-face { src: format(%s) }', 'string-in-call'),
-                                                               self.string('@font-face { src: local(%s) }', 'string-in-call')))
+                body.append('src: %s format(%s), local(%s);' % (self.url('@font-face { src: %s }'), self.string('@font-face { src: format(%s) }', 'quoted-string'),
+                                                               self.string('@font-face { src: local(%s) }', 'quoted-string')))
             if r.random() < 0.4:
                 body.append('font-weight: %s;' % r.choice(['400', 'bold', '100 900']))
             if r.random() < 0.2:
@@ -480,15 +558,10 @@ def well_framed(out1):
 
 
 def diff_kind(a, b):
-    """class of the first token of the first output where the two texts part"""
-    ta = [t for t in css.scan(noblank(a)) if t[0] != 'ws']
-    tb = [t for t in css.scan(noblank(b)) if t[0] != 'ws']
-    for x, y in zip(ta, tb):
-        if x != y:
-            return x[0] if x[0] == y[0] else '%s-became-%s' % (x[0], y[0])
-    if len(ta) != len(tb):
-        return 'tokens-%s' % ('lost' if len(tb) < len(ta) else 'added')
-    return 'whitespace'
+    """differs-only-in-whitespace when the two texts are equal once all whitespace is removed, else differs"""
+    if ''.join(a.split()) == ''.join(b.split()):
+        return 'differs-only-in-whitespace'
+    return 'differs'
 
 
 def round_trip(ctx, srcs):
@@ -515,42 +588,40 @@ def round_trip(ctx, srcs):
         elif st == 'panic':
             res[i] = ('bad', 'panic', {'out1': out1[:600], 'panic': str(r.get('panic') or r.get('msg') or '')[:300]})
         elif st == 'err':
-            res[i] = ('bad', 'error:' + first_line(r.get('err')), {'out1': out1[:600], 'err': (r.get('err') or '')[:400]})
+            res[i] = ('bad', 'rejected', {'out1': out1[:600], 'err': (r.get('err') or '')[:400]})
         elif noblank(r.get('out', '')) == noblank(out1) and 'out_hex' not in r:
             res[i] = ('ok',)
         else:
-            res[i] = ('bad', 'differs:' + diff_kind(out1, r.get('out', '')), {'out1': out1[:600], 'out2': r.get('out', '')[:600]})
+            res[i] = ('bad', diff_kind(out1, r.get('out', '')), {'out1': out1[:600], 'out2': r.get('out', '')[:600]})
     return res
 
 
-def sub_atoms(atom):
-    """Smaller versions of a character-bearing atom: every character alone, then every pair (in order)."""
-    chars, modes = atom['chars'], atom['modes']
+def with_chars(atom, idx):
+    """The atom's minimal stylesheet with only the characters at positions idx (in order)."""
+    cs = [atom['chars'][i] for i in idx]
+    ms = [atom['modes'][i] for i in idx]
     q = atom.get('q', '')
-    seen = set()
-    singles, pairs = [], []
+    body = write(cs, ms)
+    if not q and (not cs or ms[0] == 'lit' and (cs[0].isdigit() or cs[0] == '-')):
+        body = 'a' + body           # an identifier must stay one
+    return atom['carrier'] % (q + body + q)
 
-    def make(idx):
-        cs = [chars[i] for i in idx]
-        ms = [modes[i] for i in idx]
-        body = write(cs, ms)
-        if not q:
-            # an identifier must stay one: keep it from starting with a bare digit or hyphen
-            if ms[0] == 'lit' and (cs[0].isdigit() or cs[0] == '-'):
-                body = 'a' + body
-        return atom['carrier'] % (q + body + q), [cclass(c) for c in cs]
-    for i in range(len(chars)):
-        key = (chars[i], modes[i] != 'lit')
-        if key not in seen:
-            seen.add(key)
-            singles.append(make([i]))
-    for i in range(len(chars)):
-        for j in range(i + 1, len(chars)):
-            key = (chars[i], chars[j])
-            if key not in seen and len(pairs) < 40:
-                seen.add(key)
-                pairs.append(make([i, j]))
-    return singles, pairs
+
+def minimize(ctx, atom, first):
+    """Delta debugging over the characters of a failing string/identifier: drop characters while it still fails.
+    -> (source, kept characters, result)"""
+    idx = list(range(len(atom['chars'])))
+    res = first
+    while len(idx) > 1:
+        cands = [idx[:k] + idx[k + 1:] for k in range(len(idx))]
+        rs = round_trip(ctx, [with_chars(atom, c) for c in cands])
+        for c, r in zip(cands, rs):
+            if r[0] == 'bad':
+                idx, res = c, r
+                break
+        else:
+            break
+    return with_chars(atom, idx), [atom['chars'][i] for i in idx], res
 
 
 def isolate(ctx, case, observed, detail):
@@ -569,20 +640,16 @@ def isolate(ctx, case, observed, detail):
         if 'chars' not in a or not a['chars']:
             ctx.violation('%s|observed=%s' % (a['kind'], r[1]), {'src': a['alone'], 'part': a['kind']}, r[2])
             continue
-        singles, pairs = sub_atoms(a)
-        rs = round_trip(ctx, [s for s, _ in singles])
-        bad = [(s, cls, x) for (s, cls), x in zip(singles, rs) if x[0] == 'bad']
-        if not bad:
-            rp = round_trip(ctx, [s for s, _ in pairs])
-            bad = [(s, cls, x) for (s, cls), x in zip(pairs, rp) if x[0] == 'bad']
-        if bad:
-            for s, cls, x in bad[:4]:
-                part = '%s|chars=%s' % (a['kind'], '+'.join(sorted(set(cls))))
-                ctx.violation('%s|observed=%s' % (part, x[1]), {'src': s, 'part': part}, x[2])
-        else:
-            cls = sorted(set(cclass(c) for c in a['chars']))
-            part = '%s|chars=three-or-more-of(%s)' % (a['kind'], ','.join(cls)[:80])
-            ctx.violation('%s|observed=%s' % (part, r[1]), {'src': a['alone'], 'part': part}, r[2])
+        src, kept, x = minimize(ctx, a, r)
+        seq = []
+        for c in kept:
+            k = sclass(c)
+            if not seq or seq[-1] != k:
+                seq.append(k)
+        part = '%s|chars=%s' % (a['kind'], ','.join(seq))
+        if x[1] == 'differs-only-in-whitespace':
+            part = a['kind']        # the characters only matter through the escape that writes them
+        ctx.violation('%s|observed=%s' % (part, x[1]), {'src': src, 'part': part}, x[2])
 
 
 def judge(ctx, case, res):
@@ -595,9 +662,9 @@ def judge(ctx, case, res):
     if case.get('interesting', True):
         ctx.nontrivial(case['src'])
     for a in case.get('atoms', []):
-        ctx.seen('constructs', a['kind'])
+        ctx.seen('constructs', a['kind'].split('|chars')[0])
         for c in a.get('chars', []):
-            ctx.seen('character_classes_in_' + ('strings' if 'string' in a['kind'] else ('comments' if a['kind'] == 'comment' else 'identifiers')), cclass(c))
+            ctx.seen('character_classes_in_' + ('strings' if 'string' in a['kind'] else 'identifiers'), cclass(c))
     if res[0] == 'ok':
         ctx.stat('round_trips_equal')
         return
